@@ -289,8 +289,10 @@ def d3_selection(ctx):
     rule = 'C17-D3'
     m = ctx.repo.mod('input.openQCD')
     n = 0
+    from ..srcmodel import dezip_view
     for q in ('read_rwms', '_extract_flowed_energy_density', '_read_flow_obs'):
         f = m.func(q)
+        f, _nz = dezip_view(m, f)          # zip(configlist, r_start_index, ...) is read as the loop over the replica index
         idl = find_def(f, 'idl')
         key = 'input/openQCD.py:%s#selection' % q
         if len(idl) != 1 or not isinstance(idl[0].value, ast.ListComp) or not (isinstance(idl[0].value.elt, ast.Call) and call_name(idl[0].value.elt) == 'range'):
